@@ -32,7 +32,7 @@ def run(repo: Repo, rep: Report, tier: str) -> None:
         for s in solves:
             n_solve += 1
             posts = [t for t in cfg.stmts() if not isinstance(t, (ast.If, ast.For, ast.While)) and any(call_name(c) == "_add_no_overlap_constraint" for c in calls_in(t)) and cfg.dominates(t, s)]
-            rep.check(bool(posts), "C08-R1", f"{m.short}: no-overlap constraint is posted before `{norm(s)[:40]}`",
+            rep.check(bool(posts), "C08-R1", f"{m.short}: no-overlap constraint is posted before Solve call #{n_solve}",
                       "dominated by _add_no_overlap_constraint" if posts else "a path reaches Solve without the no-overlap constraint", m.loc(s))
     rep.floor("C08-R1", "solver invocations", n_solve, 2)
     ano = eng.methods["_add_no_overlap_constraint"]
@@ -204,7 +204,7 @@ def run(repo: Repo, rep: Report, tier: str) -> None:
                 if len(la) != 1 or len(ra) != 1:
                     continue
                 n_ax += 1
-                rep.check(la == ra, "C08-R5", f"{f.short}: `{norm(n)[:60]}` uses one axis", "axes agree" if la == ra else f"x/y crossed: {norm(ln)[-50:]} with {norm(rn_)[-60:]}", f.loc(n))
+                rep.check(la == ra, "C08-R5", f"{f.short}: `{cf_.text(n.left)[-34:]} {'+' if isinstance(n.op, ast.Add) else '-'} {cf_.text(n.right)[-40:]}` uses one axis", "axes agree" if la == ra else f"x/y crossed: {norm(ln)[-50:]} with {norm(rn_)[-60:]}", f.loc(n))
     rep.floor("C08-R5", "axis-indexed footprint expressions", n_ax, 10)
 
     # ---------------- R6 ---------------------------------------------------------------
